@@ -413,7 +413,7 @@ def gen_c05(rnd, n, thorough=False):
         if rnd.chance(0.15):
             # the same file made unwritable for the process (mode 0444, effective uid dropped): what an
             # Open + update + Sync acknowledge must be what a later handle reads; refusing is fine
-            lines += ["drop f", "unwritable f %d %016x %d" % (now - rnd.randint(0, rets[0] - 1), value(rnd, False), now), "disk f", "open f"]
+            lines += ["drop f", "%s f %d %016x %d" % (rnd.pick(['unwritable', 'rosync']), now - rnd.randint(0, rets[0] - 1), value(rnd, False), now), "disk f", "open f"]
             _observe(rnd, lines, layout, list(range(k)), now, nwin=1)
             tags['ops']['unwritable'] = 1
         cases.append({'id': 'c05-%d' % c, 'lines': lines, 'tags': tags})
